@@ -17,6 +17,17 @@ pub const CDEMANDS: [&str; 16] = ["0.6M", "0", "1e-6M", "0.3M", "M-", "M", "M+to
 pub struct CLetter {
     pub demand: usize,
     pub dt: usize,
+    /// engine command handed to `Consist::solve_energy_consumption`: 0 = Some(true) (what the shipped simulations
+    /// pass), 1 = Some(false), 2 = None.  Only the public consist API can issue 1 / 2.
+    #[serde(default)]
+    pub eng: u8,
+}
+pub fn eng_cmd(e: u8) -> Option<bool> {
+    match e {
+        1 => Some(false),
+        2 => None,
+        _ => Some(true),
+    }
 }
 
 fn cdemand_value(d: usize, m: f64, r: f64, drv: f64, b: f64) -> f64 {
@@ -72,7 +83,7 @@ pub struct CInfo {
     pub err: String,
 }
 
-pub fn step_consist(con: &mut Consist, demand: Result<usize, f64>, dt: f64) -> CInfo {
+pub fn step_consist(con: &mut Consist, demand: Result<usize, f64>, dt: f64, eng: u8) -> CInfo {
     let mut info = CInfo { dt, demand: 0.0, m: 0.0, r: 0.0, drv: 0.0, b: 0.0, unit_lims: vec![], accepted: false, panicked: false, err: String::new() };
     let res = guarded(|| -> Result<(), String> {
         con.set_pwr_aux(Some(true)).map_err(|e| format!("{e:#}"))?;
@@ -86,7 +97,7 @@ pub fn step_consist(con: &mut Consist, demand: Result<usize, f64>, dt: f64) -> C
             Ok(d) => cdemand_value(d, info.m, info.r, info.drv, info.b),
             Err(w) => w,
         };
-        con.solve_energy_consumption(info.demand * uc::W, dt * uc::S, Some(true)).map_err(|e| format!("{e:#}"))?;
+        con.solve_energy_consumption(info.demand * uc::W, dt * uc::S, eng_cmd(eng)).map_err(|e| format!("{e:#}"))?;
         con.save_state();
         con.step();
         Ok(())
@@ -257,7 +268,7 @@ pub fn run_consist_case(case: &ConsistCase) -> (Consist, Vec<(CInfo, CSnap, CSna
     let mut out = vec![];
     for l in &case.path {
         let p = csnap(&con);
-        let info = step_consist(&mut con, Ok(l.demand), DTS[l.dt]);
+        let info = step_consist(&mut con, Ok(l.demand), DTS[l.dt], l.eng);
         let acc = info.accepted;
         let s = csnap(&con);
         out.push((info, p, s));
@@ -402,7 +413,16 @@ pub fn explore(ctx: &mut Ctx, which: &'static str) {
     let mut letters: Vec<CLetter> = vec![];
     for dt in 0..3 {
         for d in 0..CDEMANDS.len() {
-            letters.push(CLetter { demand: d, dt });
+            letters.push(CLetter { demand: d, dt, eng: 0 });
+        }
+    }
+    if which == "C10" {
+        // engine command letters (default dt): the split must still be honoured -- or the step rejected -- when the
+        // fuel-burning units are commanded off / left without a command
+        for eng in [1u8, 2] {
+            for d in 0..CDEMANDS.len() {
+                letters.push(CLetter { demand: d, dt: 0, eng });
+            }
         }
     }
     for kinds in consist_families(ctx.tier) {
@@ -434,7 +454,7 @@ pub fn explore(ctx: &mut Ctx, which: &'static str) {
                         let mut step = |parent: &CNode, a: usize, path: &[usize]| -> Option<CNode> {
                             let l = letters[a];
                             let mut con = parent.con.clone();
-                            let info = step_consist(&mut con, Ok(l.demand), DTS[l.dt]);
+                            let info = step_consist(&mut con, Ok(l.demand), DTS[l.dt], l.eng);
                             ctx.transition();
                             ctx.depth(path.len() as u64);
                             let mk_case = |path: &[usize]| ConsistCase { units: units.clone(), res_greedy, init, remarshal, path: path.iter().map(|&i| letters[i]).collect() };
@@ -471,7 +491,8 @@ pub fn explore(ctx: &mut Ctx, which: &'static str) {
                             if counter % 101 == 0 {
                                 let case = mk_case(path);
                                 let (fc, steps) = run_consist_case(&case);
-                                if steps.iter().all(|x| x.0.accepted) {
+                                // ConsistSimulation always commands the engines on: only such traces can be bound to walk()
+                                if steps.iter().all(|x| x.0.accepted) && case.path.iter().all(|l| l.eng == 0) {
                                     match validate_consist_walk(&case, &fc, &steps) {
                                         Ok(()) => {
                                             if fc == con {
